@@ -1041,6 +1041,7 @@ func c29() {
 	if thorough {
 		maxLen = 3
 	}
+	maxLen = envInt("VERIF_C29_MAXLEN", maxLen)
 	pos := map[c29Op]int{}
 	for i, o := range good {
 		pos[o] = i
